@@ -1,8 +1,456 @@
 /-
-C14 — property theorems (stub; see DESIGN.md §6).
+C14 — TopoART: two winners per sample, edge counts, pruning schedule, consistent
+re-indexing, square zero-diagonal adjacency.  Property theorems only; helper
+lemmas live in ArtProofs.Topo, the model in ArtModel.Topo.
+
+Every theorem is for every linear order of activations `α`, every match-value
+type `μ` and threshold type `θ` (scalar or per-channel), every kernel
+`K : TopoKernel X Wt α μ` (any `choice`, `matchv`, `update`, `updateLower`,
+`newW` — in particular every base module with a `beta` parameter at any
+`beta ≥ beta_lower`), every search configuration (all five match-tracking
+modes are instances), every reset function, every `tau`, `phi` and every
+stream.  (`phi ≤ tau` and `beta_lower ≤ beta` are constructor checks of the
+implementation; no theorem below needs them.)
+
+Two clauses hold only with an extra hypothesis, because the code breaks them:
+* "every `tau` samples … are removed" — true of `fit` (`topo_fit_schedule`), false of
+  `partial_fit`, which never calls the pruning hook (finding F11,
+  `topo_schedule_partial_fit_counterexample`);
+* "the adjacency matrix is *always* square with one row per category" — true after
+  every sample of every history (`topo_shape_inv`), false in the window between a
+  `fit` call on zero rows and the next sample (`topo_shape_inv_counterexample`,
+  `topo_shape_inv_calls_partial`).
 -/
-import ArtModel.Basic
+import ArtProofs.Topo
 
 namespace Art.C14
+
+variable {X Wt α μ θ : Type} [LinearOrder α]
+
+/-! ### the two-winner search -/
+
+/-- The loop terminates: any fuel ≥ the number of live candidates gives the same result. -/
+theorem two_winner_search_terminates (cfg : SearchCfg μ θ) (M : Nat → μ) (veto : Nat → Bool)
+    (f₁ f₂ : Nat) (T : List (Option α)) (th : θ) (best : Option Nat)
+    (h₁ : liveCount T ≤ f₁) (h₂ : liveCount T ≤ f₂) :
+    topoSearch cfg M veto f₁ T th best = topoSearch cfg M veto f₂ T th best :=
+  topoSearch_fuel_irrelevant cfg M veto f₁ f₂ T th best h₁ h₂
+
+/-- **What the search of one sample returns.**  Categories are visited by decreasing
+activation (ties: lowest index), each live candidate at most once; every visit
+records the vigilance test against the threshold *in force* and the answer of the
+reset function; the threshold moves exactly after a visit that passed and was vetoed
+(as in `BaseART.step_fit`; finding C14-c / F27, fixed); the visits that
+passed and were not vetoed are exactly `[best, second]` in this order (so the best is
+the first resonating category, the second the next one, and every other visited
+category failed or was vetoed); best ≠ second, both are live candidates; there is no
+second without a best; and unless the search was abandoned (MT1) a missing second
+winner means every candidate was visited. -/
+theorem two_winner_search_spec (cfg : SearchCfg μ θ) (M : Nat → μ) (veto : Nat → Bool)
+    (T : List (Option α)) (th : θ) :
+    let r := topoSearch cfg M veto T.length T th none
+    resonantCs r = r.best.toList ++ r.second.toList ∧
+    (r.best = none → r.second = none) ∧
+    (∀ b c, r.best = some b → r.second = some c → b ≠ c) ∧
+    (∀ b, r.best = some b → ∃ v, T[b]? = some (some v)) ∧
+    (∀ c, r.second = some c → ∃ v, T[c]? = some (some v)) ∧
+    (∀ v ∈ r.visits, v.m = cfg.passes v.th (M v.c) ∧ v.ok = !veto v.c) ∧
+    (r.visits.map (·.c)).Pairwise (Before T) ∧
+    TopoThreads cfg M th r.visits r.th ∧
+    (cfg.keep = true → r.second = none →
+      ∀ c a, T[c]? = some (some a) → c ∈ r.visits.map (·.c)) := by
+  have hf := liveCount_le_length T
+  obtain ⟨_, h2, h3, h4, h5⟩ := topoSearch_winners cfg M veto T.length T th none hf
+  refine ⟨by simpa using topoSearch_resonant cfg M veto T.length T th none hf, h5, h4 rfl, h3 rfl,
+    h2, topoSearch_faithful cfg M veto T.length T th none hf,
+    (topoSearch_visit_order cfg M veto T.length T th none hf).1,
+    topoSearch_threshold_trace cfg M veto T.length T th none hf,
+    fun hk hn => topoSearch_exhaustive cfg M veto hk T.length T th none hf hn⟩
+
+/-- **Without a reset function: best and second-best vigilance-passing category.**
+The best winner is the first index of maximal activation among the candidates whose
+match value passes the configured threshold, the second winner the first index of
+maximal activation among the remaining passing candidates. -/
+theorem two_winner_no_reset (cfg : SearchCfg μ θ) (M : Nat → μ) (T : List (Option α)) (th : θ) :
+    let r := topoSearch cfg M (fun _ => false) T.length T th none
+    r.best = nanargmax (qualifying cfg M th T) ∧
+    r.second = r.best.bind (fun b => nanargmax (qualifying cfg M th (T.set b none))) :=
+  (topoSearch_no_veto cfg M T.length T th none (liveCount_le_length T)).2 rfl
+
+/-- **Winners pass a vigilance that tracking has only ever moved from passing values.**
+Any invariant `Q` of the threshold that holds of the configured one and survives
+`track` on a match value that *passed* holds of the threshold in force at every visit —
+in particular at the visits of the two winners, which passed it.  (With `Q th := th0 ≤ th`
+under MT+ / MT0 / MT1: the winners pass the configured vigilance.  Before the fix of
+finding C14-c a vetoed non-matching category lowered the threshold and this failed.) -/
+theorem two_winner_threshold_inv (cfg : SearchCfg μ θ) (M : Nat → μ) (veto : Nat → Bool)
+    (Q : θ → Prop) (hQ : ∀ th m, Q th → cfg.passes th m = true → Q (cfg.track th m))
+    (T : List (Option α)) (th : θ) (h0 : Q th) :
+    ∀ v ∈ (topoSearch cfg M veto T.length T th none).visits, Q v.th :=
+  topoSearch_threshold_inv cfg M veto Q hQ T.length T th none (liveCount_le_length T) h0
+
+/-! ### one sample -/
+
+/-- **The training step.**  On a non-empty model the step returns the best winner
+of the search, or the index of a newly appended category when nothing resonated.
+* nothing resonated: one weight `new_weight x` is appended with count 1, the
+  adjacency matrix gets a zero row and column, the mask a `False`;
+* only a best `b`: `W[b] := update x W[b]`, its counter + 1, nothing else changes;
+* best `b` and second `c` (`b ≠ c`): additionally `W[c] := updateLower x W[c]`
+  (the lower rate), its counter + 1, and exactly the cell `adjacency[b, c]` grows by one.
+The sample counter grows by one and `labels_` is untouched by the step itself. -/
+theorem topo_step_spec (K : TopoKernel X Wt α μ) (cfg : SearchCfg μ θ) (th0 : θ)
+    (veto : Nat → Bool) (s : TopoState Wt) (x : X) (hs : ShapeInv s) (hne : s.W ≠ []) :
+    let r := topoStepSearch K cfg th0 veto s.W x
+    let s' := (topoStep K cfg th0 veto s x).1
+    let lab := (topoStep K cfg th0 veto s x).2
+    s'.n = s.n + 1 ∧ s'.labels = s.labels ∧
+    (r.best = none →
+      lab = s.W.length ∧ s'.W = s.W ++ [K.newW x] ∧ s'.cnt = s.cnt ++ [1] ∧
+      s'.perm = s.perm ++ [false] ∧ s'.adj.length = s.adj.length + 1 ∧
+      ∀ i j, adjAt s'.adj i j = adjAt s.adj i j) ∧
+    (∀ b, r.best = some b → r.second = none →
+      lab = b ∧ b < s.W.length ∧ s'.W = s.W.modify b (K.update x) ∧
+      s'.cnt = s.cnt.modify b (· + 1) ∧ s'.adj = s.adj ∧ s'.perm = s.perm) ∧
+    (∀ b c, r.best = some b → r.second = some c →
+      lab = b ∧ b < s.W.length ∧ c < s.W.length ∧ b ≠ c ∧
+      s'.W = (s.W.modify b (K.update x)).modify c (K.updateLower x) ∧
+      (∀ k w, s.W[k]? = some w → s'.W[k]? =
+        some (if k = b then K.update x w else if k = c then K.updateLower x w else w)) ∧
+      s'.cnt = (s.cnt.modify b (· + 1)).modify c (· + 1) ∧ s'.perm = s.perm ∧
+      ∀ i j, adjAt s'.adj i j = adjAt s.adj i j + if i = b ∧ j = c then 1 else 0) := by
+  have hw := topoStepSearch_winners K cfg th0 veto s.W x
+  have hE : s.W.isEmpty = false := by cases h : s.W <;> simp_all
+  simp only [topoStep, hE, Bool.false_eq_true, ↓reduceIte]
+  refine ⟨?_, ?_, ?_, ?_, ?_⟩
+  · simp only [applyTopo]; split <;> [rfl; (split <;> rfl)]
+  · simp only [applyTopo]; split <;> [rfl; (split <;> rfl)]
+  · intro hb
+    simp [applyTopo, hb, padAdj_length, adjAt_padAdj]
+  · intro b hb hc
+    simp [applyTopo, hb, hc, hw.1 b hb]
+  · intro b c hb hc
+    have hbc : b ≠ c := hw.2.2.1 b c hb hc
+    have hbl := hw.1 b hb
+    have hcl := hw.2.1 c hc
+    simp only [applyTopo, hb, hc]
+    refine ⟨by trivial, hbl, hcl, hbc, by trivial, ?_, by trivial, by trivial, ?_⟩
+    · intro k w hk
+      simp only [List.getElem?_modify, hk, Option.map_eq_map, Option.map_some]
+      by_cases e1 : b = k
+      · subst e1; simp [Ne.symm hbc]
+      · by_cases e2 : c = k
+        · subst e2; simp [e1, Ne.symm e1]
+        · simp [e1, e2, Ne.symm e1, Ne.symm e2]
+    · intro i j
+      rw [adjAt_incAdj]
+      have hrow : ((s.adj[b]?).getD []).length = s.W.length := by
+        have hlt : b < s.adj.length := by rw [hs.adj_len]; exact hbl
+        rw [List.getElem?_eq_getElem hlt]
+        exact hs.row_len b _ (List.getElem?_eq_getElem hlt)
+      simp [hrow, hcl]
+
+/-- The first sample of an empty model: category 0 with count 1, a 1×1 zero
+adjacency matrix and a non-permanent flag. -/
+theorem topo_step_first (K : TopoKernel X Wt α μ) (cfg : SearchCfg μ θ) (th0 : θ)
+    (veto : Nat → Bool) (s : TopoState Wt) (x : X) (hW : s.W = []) (hc : s.cnt = []) :
+    topoStep K cfg th0 veto s x =
+      ({ s with W := [K.newW x], cnt := [1], adj := [[0]], perm := [false], n := s.n + 1 }, 0) := by
+  simp [topoStep, hW, hc]
+
+/-- **A category is appended iff nothing resonated.** -/
+theorem topo_step_new_iff (K : TopoKernel X Wt α μ) (cfg : SearchCfg μ θ) (th0 : θ)
+    (veto : Nat → Bool) (s : TopoState Wt) (x : X) (hne : s.W ≠ []) :
+    (topoStep K cfg th0 veto s x).1.W.length = s.W.length + 1 ↔
+      resonantCs (topoStepSearch K cfg th0 veto s.W x) = [] := by
+  have hE : s.W.isEmpty = false := by cases h : s.W <;> simp_all
+  have hr := topoSearch_resonant cfg (topoMatchAt K s.W x) veto (topoActivations K s.W x).length
+    (topoActivations K s.W x) th0 none (liveCount_le_length _)
+  have hw := topoStepSearch_winners K cfg th0 veto s.W x
+  simp only [topoStep, hE, applyTopo, Bool.false_eq_true, ↓reduceIte]
+  unfold topoStepSearch at hw ⊢
+  simp only at hr hw ⊢
+  rw [hr]
+  cases hb : (topoSearch cfg (topoMatchAt K s.W x) veto (topoActivations K s.W x).length
+      (topoActivations K s.W x) th0 none).best with
+  | none => simp [hw.2.2.2 hb]
+  | some b =>
+    cases hc : (topoSearch cfg (topoMatchAt K s.W x) veto (topoActivations K s.W x).length
+      (topoActivations K s.W x) th0 none).second <;> simp
+
+/-! ### shapes -/
+
+/-- **Shape invariant, after every sample of every history.**  Take any history of
+`fit` / `partial_fit` calls (any data, any batch sizes, zero-row calls included) on a
+fresh instance, followed by one more call on any data: after *every sample* of that
+call — i.e. after the step and, in `fit`, after the pruning round if one is due —
+`adjacency`, counters, mask and weights have one row / entry per category, every
+adjacency row has one column per category, and the diagonal is zero (best ≠ second:
+the best is struck before the second is chosen). -/
+theorem topo_shape_inv (K : TopoKernel X Wt α μ) (cfg : SearchCfg μ θ) (th0 : θ)
+    (veto : TopoState Wt → X → Nat → Bool) (tau phi : Nat) (calls : List (TopoCall X))
+    (xs : List X) :
+    let s := topoRun K cfg th0 veto tau phi {} calls
+    (∀ t ∈ topoFitTrace K cfg th0 veto tau phi s xs, ShapeInv t) ∧
+    (∀ t ∈ topoPFitTrace K cfg th0 veto s xs, ShapeInv t) :=
+  ⟨topoFitTrace_shape K cfg th0 veto tau phi _ xs,
+   topoPFitTrace_shape K cfg th0 veto _ xs
+     (topoRun_weak K cfg th0 veto tau phi {} calls shapeInv_empty.weak)⟩
+
+/-- The transitions one by one: a step from any state satisfying the weak invariant
+(counters match the weights; full invariant if non-empty) and a pruning round from a
+state satisfying the invariant both end in a state satisfying the invariant. -/
+theorem topo_shape_inv_transitions (K : TopoKernel X Wt α μ) (cfg : SearchCfg μ θ) (th0 : θ)
+    (veto : Nat → Bool) (phi : Nat) (s : TopoState Wt) (x : X) (xs : List X) :
+    (WeakInv s → ShapeInv (topoStep K cfg th0 veto s x).1) ∧
+    (ShapeInv s → ShapeInv (prune K phi s xs)) :=
+  ⟨topoStep_shape K cfg th0 veto s x, prune_shape K phi s xs⟩
+
+/- Full statement that the code (and therefore the faithful model) violates:
+     ∀ calls, ShapeInv (topoRun K cfg th0 veto tau phi {} calls)
+   `fit` on zero rows resets `W` and the counters but not `adjacency` / `_permanent_mask`
+   (finding C14-b). -/
+
+/-- **Between calls, if no `fit` call had zero rows** the invariant holds after every call. -/
+theorem topo_shape_inv_calls_partial (K : TopoKernel X Wt α μ) (cfg : SearchCfg μ θ) (th0 : θ)
+    (veto : TopoState Wt → X → Nat → Bool) (tau phi : Nat) (calls : List (TopoCall X))
+    (hc : FitsNonempty calls) : ShapeInv (topoRun K cfg th0 veto tau phi {} calls) :=
+  topoRun_shape K cfg th0 veto tau phi {} calls shapeInv_empty hc
+
+/-! ### pruning -/
+
+/-- **Pruning keeps exactly the right set.**  Category `i` survives iff it was
+permanent before or has been chosen at least `phi` times; there are as many
+categories afterwards as survivors; all survivors are permanent afterwards. -/
+theorem prune_keeps_exactly (K : TopoKernel X Wt α μ) (phi : Nat) (s : TopoState Wt)
+    (xs : List X) (hs : ShapeInv s) :
+    (∀ i, i ∈ pruneKeep phi s ↔
+      i < s.W.length ∧ (s.perm[i]? = some true ∨ ∃ c, s.cnt[i]? = some c ∧ phi ≤ c)) ∧
+    (prune K phi s xs).W.length = (pruneKeep phi s).length ∧
+    (∀ b ∈ (prune K phi s xs).perm, b = true) := by
+  refine ⟨?_, gather_length (pruneKeep_lt hs), prune_perm_all_true K phi s xs⟩
+  intro i
+  have hml : (pruneMask phi s).length = s.W.length := by
+    rw [pruneMask_length, hs.perm_len, hs.cnt_len]; simp
+  rw [pruneKeep, mem_keepIdx, hml]
+  constructor
+  · rintro ⟨hi, hm⟩
+    have hp : i < s.perm.length := by rw [hs.perm_len]; exact hi
+    have hc : i < s.cnt.length := by rw [hs.cnt_len]; exact hi
+    rw [pruneMask_getElem? phi s i _ _ (List.getElem?_eq_getElem hp) (List.getElem?_eq_getElem hc)] at hm
+    simp only [Option.some.injEq, Bool.or_eq_true, decide_eq_true_eq] at hm
+    refine ⟨hi, ?_⟩
+    rcases hm with h | h
+    · exact Or.inl (by rw [List.getElem?_eq_getElem hp, h])
+    · exact Or.inr ⟨_, List.getElem?_eq_getElem hc, h⟩
+  · rintro ⟨hi, h⟩
+    have hp : i < s.perm.length := by rw [hs.perm_len]; exact hi
+    have hc : i < s.cnt.length := by rw [hs.cnt_len]; exact hi
+    refine ⟨hi, ?_⟩
+    rw [pruneMask_getElem? phi s i _ _ (List.getElem?_eq_getElem hp) (List.getElem?_eq_getElem hc)]
+    rcases h with h | ⟨c, hcc, hphi⟩
+    · rw [List.getElem?_eq_getElem hp] at h
+      simp [Option.some.inj h]
+    · rw [List.getElem?_eq_getElem hc] at hcc
+      simp [Option.some.inj hcc, hphi]
+
+/-- **Pruning re-indexes everything by one strictly monotone injection.**
+`ι = pruneKeep phi s` lists the surviving old indices in strictly increasing order
+(new index `j` ↦ old index `ι[j]`).  Weights, counters, the (updated) mask and the
+adjacency sub-matrix of the pruned state are the `ι`-re-indexed old ones; the label of
+every row of `X` whose category survives is mapped by `ι⁻¹`; an orphaned row is
+re-predicted on the pruned model, or gets −1 when nothing survives; labels beyond the
+rows of `X` and the sample counter are untouched. -/
+theorem prune_reindex_consistent (K : TopoKernel X Wt α μ) (phi : Nat) (s : TopoState Wt)
+    (xs : List X) (hs : ShapeInv s) :
+    let ι := pruneKeep phi s
+    let s' := prune K phi s xs
+    ι.Pairwise (· < ·) ∧ (∀ i ∈ ι, i < s.W.length) ∧
+    s'.W.length = ι.length ∧ s'.cnt.length = ι.length ∧ s'.perm.length = ι.length ∧
+    s'.adj.length = ι.length ∧
+    (∀ j (hj : j < ι.length),
+      s'.W[j]? = s.W[ι[j]]? ∧ s'.cnt[j]? = s.cnt[ι[j]]? ∧ s'.perm[j]? = some true ∧
+      ∀ k (hk : k < ι.length), adjAt s'.adj j k = adjAt s.adj ι[j] ι[k]) ∧
+    (∀ (j : Nat) (hj : j < ι.length) (i : Nat) (x : X), s.labels[i]? = some (ι[j] : Int) →
+      xs[i]? = some x →
+      s'.labels[i]? = some (j : Int)) ∧
+    (∀ (i : Nat) (l : Int) (x : X), s.labels[i]? = some l → xs[i]? = some x →
+      ¬ (0 ≤ l ∧ l.toNat ∈ ι) →
+      s'.labels[i]? = some (if s'.W ≠ [] then topoPredLabel K s'.W x else -1)) ∧
+    (∀ i, xs.length ≤ i → s'.labels[i]? = s.labels[i]?) ∧
+    s'.n = s.n := by
+  unfold pruneKeep
+  have hk : ∀ i ∈ keepIdx (pruneMask phi s), i < s.W.length := pruneKeep_lt (phi := phi) hs
+  have hml : (pruneMask phi s).length = s.W.length := by
+    rw [pruneMask_length, hs.perm_len, hs.cnt_len]; simp
+  have hsorted := keepIdx_sorted (pruneMask phi s)
+  have hnodup : (keepIdx (pruneMask phi s)).Nodup := hsorted.imp (fun h => Nat.ne_of_lt h)
+  have hinv := prune_shape K phi s xs hs
+  have hWlen : (prune K phi s xs).W.length = (keepIdx (pruneMask phi s)).length := gather_length hk
+  refine ⟨hsorted, hk, hWlen, by rw [hinv.cnt_len, hWlen], by rw [hinv.perm_len, hWlen],
+    by rw [hinv.adj_len, hWlen], ?_, ?_, ?_, ?_, rfl⟩
+  · intro j hj
+    refine ⟨?_, ?_, ?_, ?_⟩
+    · simp only [prune]
+      rw [gather_getElem? hk, List.getElem?_eq_getElem hj]
+      rfl
+    · simp only [prune]
+      rw [gather_getElem? (by simpa [hs.cnt_len] using hk), List.getElem?_eq_getElem hj]
+      rfl
+    · have hlt : j < (prune K phi s xs).perm.length := by rw [hinv.perm_len, hWlen]; exact hj
+      rw [List.getElem?_eq_getElem hlt]
+      exact congrArg some (prune_perm_all_true K phi s xs _ (List.getElem_mem hlt))
+    · intro k hk'
+      exact adjAt_gather hk hs.adj_len hs.row_len j k hj hk'
+  · intro j hj i x hl hx
+    simp only [prune, List.getElem?_mapIdx, hl, hx, Option.map_some]
+    have hmem : (keepIdx (pruneMask phi s))[j] ∈ keepIdx (pruneMask phi s) := List.getElem_mem hj
+    have hidx := hnodup.idxOf_getElem j hj
+    simp only [relabel]
+    rw [if_pos ⟨by omega, by simp [hmem]⟩]
+    simp only [Int.toNat_natCast]
+    rw [hidx]
+  · intro i l x hl hx hnot
+    simp only [prune, List.getElem?_mapIdx, hl, hx, Option.map_some, relabel]
+    rw [if_neg hnot]
+    congr 1
+    by_cases hW : gather (keepIdx (pruneMask phi s)) s.W = []
+    · simp [hW]
+    · have : (gather (keepIdx (pruneMask phi s)) s.W).isEmpty = false := by
+        cases h : gather (keepIdx (pruneMask phi s)) s.W <;> simp_all
+      simp [hW, this]
+  · intro i hi
+    simp only [prune, List.getElem?_mapIdx]
+    cases h : s.labels[i]? with
+    | none => rfl
+    | some l => simp [List.getElem?_eq_none hi]
+
+/-! ### the schedule -/
+
+/-- **Every `tau` samples of a `fit` a pruning round has happened**: a state of the
+fit trace whose sample counter is a multiple of `tau` is the result of `prune` —
+all of its categories are permanent (together with `prune_keeps_exactly`: exactly the
+never-permanent categories with fewer than `phi` samples were removed). -/
+theorem topo_fit_schedule (K : TopoKernel X Wt α μ) (cfg : SearchCfg μ θ) (th0 : θ)
+    (veto : TopoState Wt → X → Nat → Bool) (tau phi : Nat) (s : TopoState Wt) (xs : List X) :
+    ∀ t ∈ topoFitTrace K cfg th0 veto tau phi s xs, t.n % tau = 0 → ∀ b ∈ t.perm, b = true :=
+  topoFitTrace_schedule K cfg th0 veto tau phi s xs
+
+/-! ### labels -/
+
+/-- **Labels are in range after any history.**  After any sequence of `fit` and
+`partial_fit` calls on a fresh instance every label is −1 or the index of an existing
+category (and `fit` leaves exactly one label per row). -/
+theorem topo_labels_in_range (K : TopoKernel X Wt α μ) (cfg : SearchCfg μ θ) (th0 : θ)
+    (veto : TopoState Wt → X → Nat → Bool) (tau phi : Nat) (calls : List (TopoCall X)) :
+    let s := topoRun K cfg th0 veto tau phi {} calls
+    ∀ l ∈ s.labels, l = -1 ∨ (0 ≤ l ∧ l < (s.W.length : Int)) := by
+  intro s l hl
+  obtain ⟨i, hi⟩ := List.getElem?_of_mem hl
+  have := topoRun_labels K cfg th0 veto tau phi {} calls (by intro i l hi; simp at hi)
+  exact this i l (List.getElem?_eq_some_iff.mp hi).1 hi
+
+theorem topo_fit_labels_length (K : TopoKernel X Wt α μ) (cfg : SearchCfg μ θ) (th0 : θ)
+    (veto : TopoState Wt → X → Nat → Bool) (tau phi : Nat) (s : TopoState Wt) (xs : List X) :
+    (topoFit K cfg th0 veto tau phi s xs).labels.length = xs.length :=
+  (topoFit_labels K cfg th0 veto tau phi s xs).1
+
+/-- **−1 only after a wipe-out.**  If no pruning round of a `fit` left the model
+empty (every state of the trace whose counter is a multiple of `tau` has a category),
+no label of the result is −1 (all are ≥ 0). -/
+theorem topo_minus_one_only_after_wipeout (K : TopoKernel X Wt α μ) (cfg : SearchCfg μ θ)
+    (th0 : θ) (veto : TopoState Wt → X → Nat → Bool) (tau phi : Nat) (s : TopoState Wt)
+    (xs : List X)
+    (hg : ∀ t ∈ topoFitTrace K cfg th0 veto tau phi s xs, t.n % tau = 0 → t.W ≠ []) :
+    ∀ l ∈ (topoFit K cfg th0 veto tau phi s xs).labels, (0 : Int) ≤ l :=
+  topoFit_nonneg K cfg th0 veto tau phi s xs hg
+
+/-! ### non-vacuity: a concrete run -/
+
+/-- 1-d toy module: activation and match value −|x − w|; the best winner moves onto
+the sample (`beta = 1`), the second half-way (`beta_lower = 1/2`) -/
+def exK : TopoKernel Int Int Int Int :=
+  { choice := fun _ x w => some (-(x - w).natAbs)
+    matchv := fun x w => -(x - w).natAbs
+    update := fun x _ => x
+    updateLower := fun x w => (x + w) / 2
+    newW := fun x => x }
+
+/-- vigilance: distance ≤ −threshold; tracking as MT+ with ε = 1 -/
+def exCfg : SearchCfg Int Int :=
+  { passes := fun th m => decide (th ≤ m), track := fun _ m => m + 1, keep := true, tilde := false }
+
+def exVeto : TopoState Int → Int → Nat → Bool := fun _ _ _ => false
+
+def exXs : List Int := [0, 10, 20, 20, 23, 21, 50, 21]
+
+/-- tau = 2, phi = 2, rho = "distance ≤ 2".  Round 1 (after 0, 10) removes *every*
+category: all eight labels (also of the rows not presented yet) become −1. -/
+example : (topoFitTrace exK exCfg (-2) exVeto 2 2 {} exXs)[1]? =
+    some { W := [], cnt := [], adj := [], perm := [], labels := [-1, -1, -1, -1, -1, -1, -1, -1], n := 2 } := by
+  decide
+
+/-- Round 2 (after 20, 20) keeps the single category (count 2 ≥ phi), makes it
+permanent and re-predicts the rows orphaned by round 1. -/
+example : (topoFitTrace exK exCfg (-2) exVeto 2 2 {} exXs)[3]? =
+    some { W := [20], cnt := [2], adj := [[0]], perm := [true], labels := [0, 0, 0, 0, 0, 0, 0, 0], n := 4 } := by
+  decide
+
+/-- Sample 21 has two vigilance-passing categories (20 and 23): best 0 learns at the
+full rate, second 1 at the lower rate, edge (0,1) is counted. -/
+example : (topoStepSearch exK exCfg (-2) (fun _ => false) [20, 23] 21).best = some 0 ∧
+    (topoStepSearch exK exCfg (-2) (fun _ => false) [20, 23] 21).second = some 1 := by decide
+
+example : (topoFitTrace exK exCfg (-2) exVeto 2 2 {} exXs)[5]? =
+    some { W := [21, 22], cnt := [3, 2], adj := [[0, 1], [0, 0]], perm := [true, true],
+           labels := [0, 0, 0, 0, 1, 0, 0, 0], n := 6 } := by
+  decide
+
+/-- Round 4 removes category 2 (created by 50, count 1 < phi, never permanent), keeps
+0 and 1 with their adjacency sub-matrix, and re-predicts row 6. -/
+example : topoFit exK exCfg (-2) exVeto 2 2 {} exXs =
+    { W := [21, 21], cnt := [4, 3], adj := [[0, 2], [0, 0]], perm := [true, true],
+      labels := [0, 0, 0, 0, 1, 0, 0, 0], n := 8 } := by
+  decide
+
+/-- the hypotheses of the theorems are satisfiable on this run -/
+example : ShapeInv (topoFit exK exCfg (-2) exVeto 2 2 {} exXs) :=
+  ((topoFit_shape exK exCfg (-2) exVeto 2 2 {} exXs).1 (by decide))
+
+/-- a reset function that vetoes category 0 on the sample 21: the threshold is tracked
+to M + 1 = 0, category 1 (match value −2) now fails, nothing resonates (new category) -/
+example : (topoStepSearch exK exCfg (-2) (fun c => c == 0) [20, 23] 21).best = none ∧
+    (topoStepSearch exK exCfg (-2) (fun c => c == 0) [20, 23] 21).second = none ∧
+    (topoStepSearch exK exCfg (-2) (fun c => c == 0) [20, 23] 21).th = 0 ∧
+    (topoStepSearch exK exCfg (-2) (fun c => c == 0) [20, 23] 21).visits.map (·.c) = [0, 1] := by
+  decide
+
+/-- a reset function that vetoes category 1 only: 0 is the best, there is no second -/
+example : (topoStepSearch exK exCfg (-2) (fun c => c == 1) [20, 23] 21).best = some 0 ∧
+    (topoStepSearch exK exCfg (-2) (fun c => c == 1) [20, 23] 21).second = none := by decide
+
+/-! ### counterexamples (the code violates these clauses; the model is faithful) -/
+
+/- Full statement violated: "every tau samples the categories with fewer than phi
+   samples that were never made permanent are removed" for incremental training. -/
+
+/-- **F11.**  `partial_fit` never prunes: after 4 = 2·tau samples, four categories
+with count 1 < phi = 2 are still there and none is permanent, whereas `fit` on the same
+rows has removed every category. -/
+theorem topo_schedule_partial_fit_counterexample :
+    (topoPartialFit exK exCfg (-2) exVeto {} [0, 10, 20, 30]).cnt = [1, 1, 1, 1] ∧
+    (topoPartialFit exK exCfg (-2) exVeto {} [0, 10, 20, 30]).perm = [false, false, false, false] ∧
+    (topoPartialFit exK exCfg (-2) exVeto {} [0, 10, 20, 30]).n = 4 ∧
+    (topoFit exK exCfg (-2) exVeto 2 2 {} [0, 10, 20, 30]).W = [] := by decide
+
+/-- **`fit` on zero rows leaves a stale adjacency matrix** (finding C14-b): `W` is
+empty but `adjacency` still has the two rows of the previous fit. -/
+theorem topo_shape_inv_counterexample :
+    let s := topoFit exK exCfg (-2) exVeto 2 2 (topoFit exK exCfg (-2) exVeto 2 2 {} exXs) []
+    s.W = [] ∧ s.adj = [[0, 2], [0, 0]] ∧ s.perm = [true, true] ∧ ¬ ShapeInv s := by
+  refine ⟨by decide, by decide, by decide, fun h => ?_⟩
+  have := h.adj_len
+  revert this
+  decide
 
 end Art.C14
